@@ -195,9 +195,12 @@ func c13R2(c *Ctx, id string) {
 				if u, isU := cond.(*ssa.UnOp); isU && u.Op == token.NOT {
 					neg, cond = true, u.X
 				}
-				call, isCall := cond.(*ssa.Call)
-				if !isCall || calleeOf(call).Name() != "bbolt.(*DB).hasSyncedFreelist" {
+				isTest, inv := syncedFreelistTest(cond)
+				if !isTest {
 					continue
+				}
+				if inv {
+					neg = !neg
 				}
 				synced, unsynced := b.Succs[0], b.Succs[1]
 				if neg {
@@ -234,7 +237,12 @@ func c13R2(c *Ctx, id string) {
 		}
 		c.check(id+":(*DB).loadFreelist:source", body, body.Pos(), "a persisted free list is read from the page the current meta points to; otherwise it is rebuilt with Init(freepages()); the backend follows db.FreelistType", ok, detail)
 		// hasSyncedFreelist is the comparison with PgidNoFreelist
-		hs := c.fn("bbolt.(*DB).hasSyncedFreelist")
+		hs := c.optFn("bbolt.(*DB).hasSyncedFreelist")
+		if hs == nil {
+			// the helper was written in line: every use site above recognised the comparison itself
+			c.check(id+":(*DB).hasSyncedFreelist:predicate", body, body.Pos(), "the persisted-free-list predicate is `db.meta().Freelist() != PgidNoFreelist` (written in line)", ok, "the in-line predicate was not recognised")
+			return
+		}
 		okP := false
 		eachInstr(hs, func(in ssa.Instruction) {
 			if bo, isBin := in.(*ssa.BinOp); isBin && bo.Op == token.NEQ {
@@ -282,6 +290,13 @@ func c13R3(c *Ctx, id string) {
 					if l.Kind == "call" && l.Name == "bbolt.(*DB).hasSyncedFreelist" {
 						ctl = true
 					}
+				}
+				c2 := cond
+				if u, isU := c2.(*ssa.UnOp); isU && u.Op == token.NOT {
+					c2 = u.X
+				}
+				if is, _ := syncedFreelistTest(c2); is {
+					ctl = true
 				}
 			}
 			if !ctl {
